@@ -262,7 +262,12 @@ func (fr *Frame) afterAtomicNamed(pi *protoInst, k int, label string, pre []*SVa
 				}
 			}
 			if gh == nil {
-				panic(genErr(fmt.Sprintf("at atomic %d: %s is not a ghost of protocol %s", k, gu.Ghost, pi.pr.Name)))
+				// not a protocol ghost: a thread-local ghost cell keyed by the instance (never touched by the
+				// environment step)
+				gh = g.P.Contracts.Ghosts[gu.Ghost]
+				if gh == nil || len(gh.Params) != 1 {
+					panic(genErr(fmt.Sprintf("at atomic %d: %s is neither a ghost of protocol %s nor a ghost heap keyed by the instance", k, gu.Ghost, pi.pr.Name)))
+				}
 			}
 			env := fr.newSpecEnv(base, fr.entry)
 			fr.bindParams(env)
